@@ -226,6 +226,10 @@ def check(ctx):
     sub3 = type(ctx)(ctx.pid, ctx.an, ctx.tier)
     c03.check(sub3)
     ctx.obligations.extend(o for o in sub3.obligations if o.rule.split(".", 1)[1].startswith("encrypt.this-invocation"))
+    # ... and loading it finds the same key file for every secret: sub-configurations created during the load are linked to
+    # their parent before anything is loaded into them (shared with C03.5)
+    from .links import check_links
+    check_links(ctx, "link")
     from .paths import check_save_load_path
     check_save_load_path(ctx)
     from .xmlfmt import check_xml_output_validated
